@@ -56,7 +56,8 @@ impl Rule {
         // Check CIDR match if specified
         if let Some(cidr_str) = &self.cidr {
             if let Ok(cidr) = cidr_str.parse::<IpNet>() {
-                matches &= cidr.contains(client_ip);
+                // An IPv4 client of a dual-stack listener is reported as `::ffff:a.b.c.d`
+                matches &= cidr.contains(&client_ip.to_canonical());
             } else {
                 // Invalid CIDR, rule doesn't match
                 return false;
